@@ -26,24 +26,87 @@
    what publication through the cache exposes (C11).                        *)
 EXTENDS Integers, Sequences, FiniteSets, TLC
 
-CONSTANTS N, GateSize, MaxFailures, MaxAttempts, Variant,
-          CleanSet,               \* nodes already persisted before this flush
-          UseCache,
-          ForeignCached,          \* names the shared cache holds under ANOTHER store's prefix
-          CacheKeyIgnoresPrefix,  \* TRUE: a (mutant) cache key without the store prefix
-          PublishEarly,           \* TRUE: a (mutant) worker hands the node to the cache before its write has completed
-          WithReader
+CONSTANTS
+  \* @type: Int;
+  N,
+  \* @type: Int;
+  GateSize,
+  \* @type: Int;
+  MaxFailures,
+  \* @type: Int;
+  MaxAttempts,
+  \* @type: Str;
+  Variant,
+  \* @type: Set(Int);
+  CleanSet,               \* nodes already persisted before this flush
+  \* @type: Bool;
+  UseCache,
+  \* @type: Set(Int);
+  ForeignCached,          \* names the shared cache holds under ANOTHER store's prefix
+  \* @type: Bool;
+  CacheKeyIgnoresPrefix,  \* TRUE: a (mutant) cache key without the store prefix
+  \* @type: Bool;
+  PublishEarly,           \* TRUE: a (mutant) worker hands the node to the cache before its write has completed
+  \* @type: Bool;
+  WithReader
 
 Nodes == 1..N
 None == 0
 Closed == -1
 
-VARIABLES mpc, cur, attempt, result,          \* main
-          flags, linkIsHash, pending,         \* what main has written into the in-memory tree
-          chan, dpc, df, tokens, wg,          \* channel, dispatcher, semaphore, wait group
-          wst, firstErr, failedNow,           \* workers
-          store, cache, failsLeft,            \* environment
-          published, writtenAfterPub, rpc, rseen, inPlaceEdit   \* publication through the cache
+VARIABLES
+  \* main
+  \* @type: Str;
+  mpc,
+  \* @type: Int;
+  cur,
+  \* @type: Int;
+  attempt,
+  \* @type: Str;
+  result,
+  \* what main has written into the in-memory tree
+  \* @type: Int -> Bool;
+  flags,
+  \* @type: Int -> Bool;
+  linkIsHash,
+  \* @type: Set(Int);
+  pending,
+  \* channel, dispatcher, semaphore, wait group
+  \* @type: Int;
+  chan,
+  \* @type: Str;
+  dpc,
+  \* @type: Int;
+  df,
+  \* @type: Int;
+  tokens,
+  \* @type: Int;
+  wg,
+  \* workers
+  \* @type: Int -> Str;
+  wst,
+  \* @type: Bool;
+  firstErr,
+  \* @type: Bool;
+  failedNow,
+  \* environment
+  \* @type: Set(Int);
+  store,
+  \* @type: Set(Int);
+  cache,
+  \* @type: Int;
+  failsLeft,
+  \* publication through the cache
+  \* @type: Set(<<Int, Str>>);
+  published,
+  \* @type: Set(Int);
+  writtenAfterPub,
+  \* @type: Str;
+  rpc,
+  \* @type: Seq(<<Int, Str>>);
+  rseen,
+  \* @type: Set(Int);
+  inPlaceEdit
 vars == <<mpc, cur, attempt, result, flags, linkIsHash, pending, chan, dpc, df, tokens, wg, wst, firstErr, failedNow,
           store, cache, failsLeft, published, writtenAfterPub, rpc, rseen, inPlaceEdit>>
 
@@ -101,7 +164,7 @@ MWait == /\ mpc = "closing" /\ chan = None /\ wg = 0
             ELSE /\ result' = "ok"
                  /\ IF Variant = "asis" THEN U(<<flags, linkIsHash, writtenAfterPub>>) ELSE Commit(pending)
          /\ pending' = {}
-         /\ U(<<cur, attempt>>) /\ U(PoolVars) /\ U(EnvVars) /\ U(<<published, rpc, rseen, inPlaceEdit>>)
+         /\ U(cur) /\ U(attempt) /\ U(PoolVars) /\ U(EnvVars) /\ U(<<published, rpc, rseen, inPlaceEdit>>)
 MRetry == /\ mpc = "returned" /\ result = "err" /\ attempt < MaxAttempts
           /\ mpc' = "visit" /\ cur' = 1 /\ attempt' = attempt + 1 /\ result' = "none"
           /\ dpc' = "recv" /\ df' = None /\ tokens' = GateSize /\ wg' = 1 /\ firstErr' = FALSE /\ failedNow' = FALSE
@@ -122,7 +185,7 @@ DGate == /\ dpc = "gate" /\ tokens > 0
 Done(n) == /\ wst' = [wst EXCEPT ![n] = "done"] /\ tokens' = tokens + 1 /\ wg' = wg - 1
 WCheck(n) == /\ wst[n] = "spawned"
              /\ IF firstErr THEN Done(n)                              \* an earlier write failed: do not even try
-                ELSE /\ wst' = [wst EXCEPT ![n] = "storing"] /\ U(<<tokens, wg>>)
+                ELSE /\ wst' = [wst EXCEPT ![n] = "storing"] /\ U(tokens) /\ U(wg)
              /\ cache' = IF PublishEarly /\ UseCache /\ ~firstErr THEN cache \cup {n} ELSE cache
              /\ U(MainVars) /\ U(<<chan, dpc, df, firstErr, failedNow>>) /\ U(<<store, failsLeft>>) /\ U(PubVars)
 WStoreOk(n) == /\ wst[n] = "storing"
@@ -138,7 +201,7 @@ WPublish(n) == /\ wst[n] = "stored"                                   \* cache.A
 WStoreFail(n) == /\ wst[n] = "storing" /\ failsLeft > 0
                  /\ failsLeft' = failsLeft - 1 /\ firstErr' = TRUE /\ failedNow' = TRUE
                  /\ Done(n)
-                 /\ U(MainVars) /\ U(<<chan, dpc, df>>) /\ U(<<store, cache>>) /\ U(PubVars)
+                 /\ U(MainVars) /\ U(<<chan, dpc, df>>) /\ U(store) /\ U(cache) /\ U(PubVars)
 
 (* ---- a reader: another tree's goroutine that gets a node object from the shared cache and, ---- *)
 (* ---- when it modifies it, reads `shared` to decide between copying and editing in place    ---- *)
